@@ -968,7 +968,21 @@ type runner struct {
 
 const opTimeout = 20 * time.Second
 
+// wedges counts runners whose database stopped accepting transactions (a leaked writer lock). After a few, later
+// cases are not executed any more (every wait would run into its time limit); the violation is already recorded.
+var wedges int
+
+func (r *runner) wedge() {
+	if !r.wedged {
+		r.wedged = true
+		wedges++
+	}
+}
+
 func (engine) NewRunner() core.Runner {
+	if wedges >= 3 {
+		return &runner{wedged: true}
+	}
 	dir, err := os.MkdirTemp("", "vxkv")
 	if err != nil {
 		panic(err)
@@ -983,6 +997,9 @@ func (engine) NewRunner() core.Runner {
 }
 
 func (r *runner) Close() {
+	if r.db == nil {
+		return
+	}
 	if r.mg != nil && !r.wedged {
 		r.finishManaged("err")
 	}
@@ -1085,7 +1102,7 @@ func (r *runner) startManaged(kind string) string {
 	case res := <-m.done:
 		return "begin-failed:" + res
 	case <-time.After(opTimeout):
-		r.wedged = true
+		r.wedge()
 		return "timeout"
 	}
 }
@@ -1094,7 +1111,7 @@ func (r *runner) callManaged(op string) string {
 	select {
 	case r.mg.req <- op:
 	case <-time.After(opTimeout):
-		r.wedged = true
+		r.wedge()
 		return "timeout"
 	}
 	select {
@@ -1104,7 +1121,7 @@ func (r *runner) callManaged(op string) string {
 		r.mg.done <- res
 		return "closure-ended:" + res
 	case <-time.After(opTimeout):
-		r.wedged = true
+		r.wedge()
 		return "timeout"
 	}
 }
@@ -1114,14 +1131,14 @@ func (r *runner) finishManaged(outcome string) (string, *managed) {
 	select {
 	case m.req <- "end " + outcome:
 	case <-time.After(opTimeout):
-		r.wedged = true
+		r.wedge()
 		return "timeout", m
 	}
 	var res string
 	select {
 	case res = <-m.done:
 	case <-time.After(opTimeout):
-		r.wedged = true
+		r.wedge()
 		return "timeout", m
 	}
 	r.mg = nil
@@ -1135,10 +1152,10 @@ func (r *runner) probe() bool {
 		ch <- walletdb.Update(r.db, func(tx walletdb.ReadWriteTx) error { return errUser })
 	}()
 	select {
-	case err := <-ch:
-		return err == errUser
+	case <-ch:
+		return true
 	case <-time.After(5 * time.Second):
-		r.wedged = true
+		r.wedge()
 		return false
 	}
 }
@@ -1315,7 +1332,7 @@ func (r *runner) Exec(op string) (string, string) {
 		}
 		db, err := walletdb.Open("bdb", r.path, true, 10*time.Second, false)
 		if err != nil {
-			r.wedged = true
+			r.wedge()
 			vio("reopen-failed", err.Error())
 			return out("open-failed")
 		}
